@@ -355,6 +355,11 @@ impl GrandState {
             ));
         }
         if option == EnterSubshellOption::Ignore {
+            if self.current_state.action != Action::Ignore {
+                // The signal is ignored by the shell, not since the startup of
+                // the shell, so the subshell can still set a trap for it.
+                self.current_state.origin = Origin::Subshell;
+            }
             self.current_state.action = Action::Ignore;
         }
 
